@@ -35,6 +35,7 @@ type C16Case struct {
 	Sessions [][]c16Op      `json:"sessions"`
 	Probes   [][]simrt.FilterSpec `json:"probes"` // dump/restore probes
 	BulkNum  int            `json:"bulk_num,omitempty"`
+	FailQuery int           `json:"fail_query,omitempty"` // sqlite: the k-th query of the sessions fails with an I/O error (0: none)
 	Seed     uint32         `json:"xxhash_seed,omitempty"`
 	Sched    simrt.Schedule `json:"sched"`
 }
@@ -134,6 +135,9 @@ func (c16Engine) Gen(t *rapid.T, tier string) any {
 	}
 	c.Probes = genQueries(t, evs, 3)
 	c.BulkNum = rapid.IntRange(1, 3).Draw(t, "bulk")
+	if c.Backend == "sqlite" && rapid.IntRange(0, 2).Draw(t, "failquery") == 0 {
+		c.FailQuery = rapid.IntRange(1, 4).Draw(t, "failquery.k")
+	}
 	c.Seed = rapid.Uint32().Draw(t, "xxseed")
 	c.Sched = GenSchedule(t, 1500)
 	return c
@@ -187,6 +191,24 @@ func (c16Engine) Exec(t *testing.T, cc any) *simrt.Result {
 				return
 			}
 			h = sh
+			if c.FailQuery > 0 {
+				// disk trouble while answering a REQ: the reply must still be complete
+				// in form (events, then exactly one EOSE)
+				nq := 0
+				plan := &simrt.FaultPlan{Hook: func(n int, what string) error {
+					if what == "query" {
+						nq++
+						if nq == c.FailQuery {
+							st.Fault("drv-err-query")
+							return simrt.ErrInjected
+						}
+					}
+					return nil
+				}}
+				simrt.SetFaultPlan(plan)
+				plan.Arm()
+				defer simrt.SetFaultPlan(nil)
+			}
 		}
 		var cls []*simrt.Client
 		for si, ops := range c.Sessions {
